@@ -94,5 +94,584 @@ theorem inner_spec {α} (counted isEl : α → Bool) (idx pos : Int) (e : α) (p
         obtain ⟨pre', hp1, hp2, hp3⟩ := ih3 h1 h2
         exact ⟨pre', hp1, hp2, by simpa [inner, hcc'] using hp3⟩
 
+/-! ### One round of the outer `while` loop -/
+
+section Outer
+variable {α : Type} (counted isEl : α → Bool) (a b : Int) (var : Bool) (lastIndex incr : Int)
+
+/-- `idx` out of `[1, lastIndex+1]`: the loop does not run. -/
+theorem outer_out (fuel : Nat) (count idx : Int) (rest : List α) (rel : Int)
+    (h : ¬ (1 ≤ idx ∧ idx ≤ lastIndex + 1)) :
+    outer counted isEl a b var lastIndex incr fuel count idx rest rel = false := by
+  cases fuel with
+  | zero => rfl
+  | succ f =>
+    have h' : (decide (1 ≤ idx) && decide (idx ≤ lastIndex + 1)) = false := by
+      simpa using h
+    simp only [outer, h']
+    rfl
+
+theorem outer_hit (f : Nat) (count idx : Int) (rest : List α) (rel pos : Int)
+    (hinv : Inv counted isEl pos rest rel) (h1 : 1 ≤ idx) (h2 : idx ≤ lastIndex + 1)
+    (h : idx = pos) :
+    outer counted isEl a b var lastIndex incr (f + 1) count idx rest rel = true := by
+  obtain ⟨pre, e, post, rfl, hpre, he, hc, hpos⟩ := hinv
+  have hi := (inner_spec counted isEl idx pos e post he hc pre rel hpre hpos).1 h
+  simp [outer, h1, h2, hi]
+
+theorem outer_miss (fuel : Nat) (count idx : Int) (rest : List α) (rel pos : Int)
+    (hinv : Inv counted isEl pos rest rel) (h : idx ≤ rel ∨ pos < idx) :
+    outer counted isEl a b var lastIndex incr fuel count idx rest rel = false := by
+  by_cases hr : 1 ≤ idx ∧ idx ≤ lastIndex + 1
+  · cases fuel with
+    | zero => rfl
+    | succ f =>
+      obtain ⟨pre, e, post, rfl, hpre, he, hc, hpos⟩ := hinv
+      have hi := (inner_spec counted isEl idx pos e post he hc pre rel hpre hpos).2.1 h
+      simp [outer, hr.1, hr.2, hi]
+  · exact outer_out counted isEl a b var lastIndex incr fuel count idx rest rel hr
+
+theorem outer_cont (f : Nat) (count idx : Int) (rest : List α) (rel pos : Int)
+    (hinv : Inv counted isEl pos rest rel) (h1 : 1 ≤ idx) (h2 : idx ≤ lastIndex + 1)
+    (hr : rel < idx) (hp : idx < pos) :
+    ∃ rest', Inv counted isEl pos rest' idx ∧
+      outer counted isEl a b var lastIndex incr (f + 1) count idx rest rel =
+        (if count + incr < 0 then false
+         else if idxOf a b var (count + incr) == idx then false
+         else outer counted isEl a b var lastIndex incr f (count + incr)
+                (idxOf a b var (count + incr)) rest' idx) := by
+  obtain ⟨pre, e, post, rfl, hpre, he, hc, hpos⟩ := hinv
+  obtain ⟨pre', hp1, hp2, hi⟩ :=
+    (inner_spec counted isEl idx pos e post he hc pre rel hpre hpos).2.2 hr hp
+  refine ⟨pre' ++ e :: post, ⟨pre', e, post, rfl, hp1, he, hc, hp2⟩, ?_⟩
+  simp [outer, h1, h2, hi]
+
+end Outer
+
+/-! ### The whole outer loop, in its three regimes -/
+
+section OuterLoop
+variable {α : Type} (counted isEl : α → Bool) (a b : Int) (lastIndex pos : Int)
+
+/-- `a > 0`, `count_incr = 1`: from `count` upward, the loop finds `pos` iff some `n ≥ count` has
+    `a*n+b = pos`. -/
+theorem outer_pos (ha : 0 < a) (hpL : pos ≤ lastIndex + 1) :
+    ∀ (fuel : Nat) (count idx : Int) (rest : List α) (rel : Int),
+      0 ≤ count → idx = a * count + b → 0 ≤ rel → rel < idx → Inv counted isEl pos rest rel →
+      1 ≤ fuel → pos - idx < (fuel : Int) →
+      (outer counted isEl a b true lastIndex 1 fuel count idx rest rel = true ↔
+        ∃ n : Nat, count ≤ (n : Int) ∧ a * (n : Int) + b = pos) := by
+  intro fuel
+  induction fuel with
+  | zero => intro _ _ _ _ _ _ _ _ _ h; omega
+  | succ f ih =>
+    intro count idx rest rel hc hidx hrel hri hinv _ hfuel
+    rcases Int.lt_trichotomy idx pos with hlt | heq | hgt
+    · obtain ⟨rest', hinv', hstep⟩ := outer_cont counted isEl a b true lastIndex 1 f count idx
+        rest rel pos hinv (by omega) (by omega) hri hlt
+      rw [hstep]
+      have hs := mul_succ' a count
+      have hne : ¬ (count + 1 < 0) := by omega
+      have hidx' : idxOf a b true (count + 1) = idx + a := by
+        simp only [idxOf, if_true]; omega
+      have hne2 : ¬ (idx + a = idx) := by omega
+      rw [if_neg hne, hidx']
+      simp only [beq_iff_eq, hne2, if_false]
+      rw [ih (count + 1) (idx + a) rest' idx (by omega) (by omega) (by omega) (by omega) hinv'
+        (by omega) (by omega)]
+      constructor
+      · rintro ⟨n, h1, h2⟩; exact ⟨n, by omega, h2⟩
+      · rintro ⟨n, h1, h2⟩
+        refine ⟨n, ?_, h2⟩
+        by_contra hcon
+        have hn : (n : Int) = count := by omega
+        rw [hn] at h2; omega
+    · have ht := outer_hit counted isEl a b true lastIndex 1 f count idx rest rel pos hinv
+        (by omega) (by omega) heq
+      simp only [ht, true_iff]
+      exact ⟨count.toNat, by omega, by rw [Int.toNat_of_nonneg hc]; omega⟩
+    · have hm := outer_miss counted isEl a b true lastIndex 1 (f + 1) count idx rest rel pos hinv
+        (Or.inr hgt)
+      rw [hm]
+      constructor
+      · intro h; cases h
+      · rintro ⟨n, hn1, hn2⟩
+        have := mono_pos ha hn1
+        omega
+
+/-- `a < 0`, `count_incr = -1`: from `count` downward to 0, the loop finds `pos` iff some
+    `0 ≤ n ≤ count` has `a*n+b = pos`. -/
+theorem outer_neg (ha : a < 0) (hpL : pos ≤ lastIndex + 1) :
+    ∀ (fuel : Nat) (count idx : Int) (rest : List α) (rel : Int),
+      0 ≤ count → idx = a * count + b → 0 ≤ rel → rel < idx → Inv counted isEl pos rest rel →
+      count < (fuel : Int) →
+      (outer counted isEl a b true lastIndex (-1) fuel count idx rest rel = true ↔
+        ∃ n : Nat, (n : Int) ≤ count ∧ a * (n : Int) + b = pos) := by
+  intro fuel
+  induction fuel with
+  | zero => intro _ _ _ _ _ _ _ _ _ h; omega
+  | succ f ih =>
+    intro count idx rest rel hc hidx hrel hri hinv hfuel
+    rcases Int.lt_trichotomy idx pos with hlt | heq | hgt
+    · obtain ⟨rest', hinv', hstep⟩ := outer_cont counted isEl a b true lastIndex (-1) f count idx
+        rest rel pos hinv (by omega) (by omega) hri hlt
+      rw [hstep]
+      have hs := mul_pred' a count
+      by_cases hneg : count + -1 < 0
+      · rw [if_pos hneg]
+        constructor
+        · intro h; cases h
+        · rintro ⟨n, hn1, hn2⟩
+          have hn : (n : Int) = count := by omega
+          rw [hn] at hn2; omega
+      · have hidx' : idxOf a b true (count + -1) = idx - a := by
+          simp only [idxOf, if_true]; omega
+        have hne2 : ¬ (idx - a = idx) := by omega
+        rw [if_neg hneg, hidx']
+        simp only [beq_iff_eq, hne2, if_false]
+        rw [ih (count + -1) (idx - a) rest' idx (by omega) (by omega) (by omega) (by omega) hinv'
+          (by omega)]
+        constructor
+        · rintro ⟨n, h1, h2⟩; exact ⟨n, by omega, h2⟩
+        · rintro ⟨n, h1, h2⟩
+          refine ⟨n, ?_, h2⟩
+          by_contra hcon
+          have hn : (n : Int) = count := by omega
+          rw [hn] at h2; omega
+    · have ht := outer_hit counted isEl a b true lastIndex (-1) f count idx rest rel pos hinv
+        (by omega) (by omega) heq
+      simp only [ht, true_iff]
+      exact ⟨count.toNat, by omega, by rw [Int.toNat_of_nonneg hc]; omega⟩
+    · have hm := outer_miss counted isEl a b true lastIndex (-1) (f + 1) count idx rest rel pos
+        hinv (Or.inr hgt)
+      rw [hm]
+      constructor
+      · intro h; cases h
+      · rintro ⟨n, hn1, hn2⟩
+        have := mono_neg ha hn1
+        omega
+
+/-- Constant index (`var = false`, or `a = 0`): one round decides. -/
+theorem outer_const (var : Bool) (idx : Int) (hconst : ∀ c, idxOf a b var c = idx)
+    (hpL : pos ≤ lastIndex + 1) (f : Nat) (count : Int) (rest : List α) (rel : Int)
+    (hc : 0 ≤ count) (hrel : 0 ≤ rel) (hri : rel < idx) (hinv : Inv counted isEl pos rest rel) :
+    (outer counted isEl a b var lastIndex 1 (f + 1) count idx rest rel = true ↔ idx = pos) := by
+  rcases Int.lt_trichotomy idx pos with hlt | heq | hgt
+  · obtain ⟨rest', hinv', hstep⟩ := outer_cont counted isEl a b var lastIndex 1 f count idx
+      rest rel pos hinv (by omega) (by omega) hri hlt
+    rw [hstep, hconst]
+    have hne : ¬ (count + 1 < 0) := by omega
+    rw [if_neg hne]
+    simp only [beq_self_eq_true, if_true]
+    constructor
+    · intro h; cases h
+    · intro h; omega
+  · have ht := outer_hit counted isEl a b var lastIndex 1 f count idx rest rel pos hinv
+      (by omega) (by omega) heq
+    simp only [ht, true_iff]; exact heq
+  · have hm := outer_miss counted isEl a b var lastIndex 1 (f + 1) count idx rest rel pos hinv
+      (Or.inr hgt)
+    rw [hm]
+    constructor
+    · intro h; cases h
+    · intro h; omega
+
+end OuterLoop
+
+/-! ### The bound-adjust loop -/
+
+section Adjust
+variable (a b lastIndex : Int)
+
+theorem adjust_in (fuel : Nat) (count idx : Int) (adj : Option Bool)
+    (h1 : 1 ≤ idx) (h2 : idx ≤ lastIndex + 1) :
+    adjust a b lastIndex fuel count idx adj = (count, idx) := by
+  cases fuel with
+  | zero => rfl
+  | succ f =>
+    have e1 : ¬ (idx < 1) := by omega
+    have e2 : ¬ (idx > lastIndex + 1) := by omega
+    simp only [adjust, e1, e2, decide_false, Bool.or_false]
+    rfl
+
+theorem adjust_low_adj (fuel : Nat) (count idx : Int) (h : idx < 1) :
+    adjust a b lastIndex fuel count idx (some true) = (count, idx) := by
+  cases fuel with
+  | zero => rfl
+  | succ f =>
+    simp only [adjust, h, decide_true, Bool.true_or, if_true]
+    rfl
+
+theorem adjust_high_adj (fuel : Nat) (count idx : Int) (h : idx > lastIndex + 1) (h' : ¬ idx < 1) :
+    adjust a b lastIndex fuel count idx (some false) = (count, idx) := by
+  cases fuel with
+  | zero => rfl
+  | succ f =>
+    simp only [adjust, h, h', decide_true, decide_false, Bool.or_true, if_true, if_false]
+    rfl
+
+theorem adjust_low_stop (f : Nat) (count idx : Int) (adj : Option Bool)
+    (hadj : (adj == some true) = false) (h : idx < 1)
+    (hd : 0 - (a * (count + 1) + b) ≥ 0 - idx) :
+    adjust a b lastIndex (f + 1) count idx adj = (count + 1, a * (count + 1) + b) := by
+  simp only [adjust, h, decide_true, Bool.true_or, if_true, hd, hadj]
+  rfl
+
+theorem adjust_low_go (f : Nat) (count idx : Int) (adj : Option Bool)
+    (hadj : (adj == some true) = false) (h : idx < 1)
+    (hd : ¬ (0 - (a * (count + 1) + b) ≥ 0 - idx)) :
+    adjust a b lastIndex (f + 1) count idx adj =
+      adjust a b lastIndex f (count + 1) (a * (count + 1) + b) (some false) := by
+  simp only [adjust, h, decide_true, Bool.true_or, if_true, hd, if_false, hadj]
+  rfl
+
+theorem adjust_high_stop (f : Nat) (count idx : Int) (adj : Option Bool)
+    (hadj : (adj == some false) = false) (h : idx > lastIndex + 1) (h' : ¬ idx < 1)
+    (hd : (a * (count + 1) + b) - lastIndex ≥ idx - lastIndex) :
+    adjust a b lastIndex (f + 1) count idx adj = (count + 1, a * (count + 1) + b) := by
+  simp only [adjust, h, h', decide_true, decide_false, Bool.or_true, if_true, if_false, hd, hadj]
+  rfl
+
+theorem adjust_high_go (f : Nat) (count idx : Int) (adj : Option Bool)
+    (hadj : (adj == some false) = false) (h : idx > lastIndex + 1) (h' : ¬ idx < 1)
+    (hd : ¬ ((a * (count + 1) + b) - lastIndex ≥ idx - lastIndex)) :
+    adjust a b lastIndex (f + 1) count idx adj =
+      adjust a b lastIndex f (count + 1) (a * (count + 1) + b) (some true) := by
+  simp only [adjust, h, h', decide_true, decide_false, Bool.or_true, if_true, if_false, hd, hadj]
+  rfl
+
+end Adjust
+
+/-! ### What the adjust loop establishes -/
+
+/-- Every `n ≥ 0` whose term `a*n+b` lies in `[1, lastIndex+1]` is at least `count`. -/
+def NoSolBelow (a b lastIndex count : Int) : Prop :=
+  ∀ n : Nat, 1 ≤ a * (n : Int) + b → a * (n : Int) + b ≤ lastIndex + 1 → count ≤ (n : Int)
+
+theorem NoSolBelow.succ {a b lastIndex count : Int} (h : NoSolBelow a b lastIndex count)
+    (hout : ¬ (1 ≤ a * count + b ∧ a * count + b ≤ lastIndex + 1)) :
+    NoSolBelow a b lastIndex (count + 1) := by
+  intro n h1 h2
+  have := h n h1 h2
+  by_contra hcon
+  have hn : (n : Int) = count := by omega
+  rw [hn] at h1 h2
+  exact hout ⟨h1, h2⟩
+
+/-- Post-condition of the adjust loop. -/
+def AdjPost (a b lastIndex : Int) (r : Int × Int) : Prop :=
+  r.2 = a * r.1 + b ∧ 0 ≤ r.1 ∧ NoSolBelow a b lastIndex r.1 ∧
+    (0 < a → 1 ≤ r.2) ∧ (a < 0 → r.2 ≤ lastIndex + 1)
+
+section AdjustLoop
+variable (a b lastIndex : Int)
+
+/-- `a > 0`, after a first step from below (`adjust = -1`): climbs until `idx ≥ 1`. -/
+theorem adjust_pos_low (ha : 0 < a) :
+    ∀ (fuel : Nat) (count idx : Int), 0 ≤ count → idx = a * count + b →
+      NoSolBelow a b lastIndex count → 1 ≤ fuel → 2 ≤ (fuel : Int) + idx →
+      AdjPost a b lastIndex (adjust a b lastIndex fuel count idx (some false)) := by
+  intro fuel
+  induction fuel with
+  | zero => intro _ _ _ _ _ h; omega
+  | succ f ih =>
+    intro count idx hc hidx hP _ hf
+    have hs := mul_succ' a count
+    by_cases hlow : idx < 1
+    · rw [adjust_low_go a b lastIndex f count idx (some false) (by decide) hlow (by omega)]
+      exact ih (count + 1) _ (by omega) rfl (hP.succ (by omega)) (by omega) (by omega)
+    · by_cases hhigh : idx > lastIndex + 1
+      · rw [adjust_high_adj a b lastIndex (f + 1) count idx hhigh hlow]
+        exact ⟨hidx, hc, hP, fun _ => by show 1 ≤ idx; omega, fun h => by omega⟩
+      · rw [adjust_in a b lastIndex (f + 1) count idx _ (by omega) (by omega)]
+        exact ⟨hidx, hc, hP, fun _ => by show 1 ≤ idx; omega, fun h => by omega⟩
+
+/-- `a < 0`, after a first step from above (`adjust = 1`): descends until `idx ≤ lastIndex+1`. -/
+theorem adjust_neg_high (ha : a < 0) (hL : 0 ≤ lastIndex + 1) :
+    ∀ (fuel : Nat) (count idx : Int), 0 ≤ count → idx = a * count + b →
+      NoSolBelow a b lastIndex count → 1 ≤ fuel → idx - lastIndex ≤ (fuel : Int) →
+      AdjPost a b lastIndex (adjust a b lastIndex fuel count idx (some true)) := by
+  intro fuel
+  induction fuel with
+  | zero => intro _ _ _ _ _ h; omega
+  | succ f ih =>
+    intro count idx hc hidx hP _ hf
+    have hs := mul_succ' a count
+    by_cases hlow : idx < 1
+    · rw [adjust_low_adj a b lastIndex (f + 1) count idx hlow]
+      exact ⟨hidx, hc, hP, fun h => by omega, fun _ => by show idx ≤ lastIndex + 1; omega⟩
+    · by_cases hhigh : idx > lastIndex + 1
+      · rw [adjust_high_go a b lastIndex f count idx (some true) (by decide) hhigh hlow
+          (by omega)]
+        exact ih (count + 1) _ (by omega) rfl (hP.succ (by omega)) (by omega) (by omega)
+      · rw [adjust_in a b lastIndex (f + 1) count idx _ (by omega) (by omega)]
+        exact ⟨hidx, hc, hP, fun h => by omega, fun _ => by show idx ≤ lastIndex + 1; omega⟩
+
+theorem mul_nat_nonneg {a : Int} (ha : 0 ≤ a) (n : Nat) : 0 ≤ a * (n : Int) :=
+  Int.mul_nonneg ha (Int.natCast_nonneg n)
+
+theorem mul_nat_nonpos {a : Int} (ha : a ≤ 0) (n : Nat) : a * (n : Int) ≤ 0 := by
+  have : (0 : Int) ≤ (n : Int) := Int.natCast_nonneg n
+  nlinarith
+
+/-- The adjust loop as called from `matchOne` (`count = 0`, `idx = b`, `adjust = None`). -/
+theorem adjust_spec (hL : 0 ≤ lastIndex + 1) (fuel : Nat)
+    (hf1 : b + 2 ≤ (fuel : Int)) (hf2 : 2 - b ≤ (fuel : Int)) :
+    AdjPost a b lastIndex (adjust a b lastIndex fuel 0 b none) := by
+  obtain ⟨f, rfl⟩ : ∃ f, fuel = f + 1 := ⟨fuel - 1, by omega⟩
+  have hP0 : NoSolBelow a b lastIndex 0 := fun n _ _ => Int.natCast_nonneg n
+  have hs : a * (0 + 1) = a := by ring
+  have hz : a * 0 + b = b := by ring
+  by_cases hlow : b < 1
+  · by_cases ha : 0 < a
+    · rw [adjust_low_go a b lastIndex f 0 b none (by decide) hlow (by omega)]
+      exact adjust_pos_low a b lastIndex ha f (0 + 1) _ (by omega) rfl
+        (hP0.succ (by omega)) (by omega) (by omega)
+    · rw [adjust_low_stop a b lastIndex f 0 b none (by decide) hlow (by omega)]
+      refine ⟨rfl, by show (0:Int) ≤ 0 + 1; omega, ?_, fun h => by omega, fun _ => ?_⟩
+      · intro n h1 h2
+        have := mul_nat_nonpos (a := a) (by omega) n
+        omega
+      · show a * (0 + 1) + b ≤ lastIndex + 1
+        omega
+  · by_cases hhigh : b > lastIndex + 1
+    · by_cases ha : a < 0
+      · rw [adjust_high_go a b lastIndex f 0 b none (by decide) hhigh hlow (by omega)]
+        exact adjust_neg_high a b lastIndex ha hL f (0 + 1) _ (by omega) rfl
+          (hP0.succ (by omega)) (by omega) (by omega)
+      · rw [adjust_high_stop a b lastIndex f 0 b none (by decide) hhigh hlow (by omega)]
+        refine ⟨rfl, by show (0:Int) ≤ 0 + 1; omega, ?_, fun _ => ?_, fun h => by omega⟩
+        · intro n h1 h2
+          have := mul_nat_nonneg (a := a) (by omega) n
+          omega
+        · show 1 ≤ a * (0 + 1) + b
+          omega
+    · rw [adjust_in a b lastIndex (f + 1) 0 b none (by omega) (by omega)]
+      exact ⟨hz.symm, Int.le_refl 0, hP0, fun _ => by show 1 ≤ b; omega,
+        fun _ => by show b ≤ lastIndex + 1; omega⟩
+
+end AdjustLoop
+
+/-! ### The floor loop (`a < 0`) -/
+
+section Floor
+variable (a b : Int)
+
+theorem floorLoop_stop (fuel : Nat) (count idx lowest : Int) (h : idx < 1) :
+    floorLoop a b fuel count idx lowest = lowest := by
+  cases fuel with
+  | zero => rfl
+  | succ f =>
+    have : ¬ (idx ≥ 1) := by omega
+    simp only [floorLoop, this, if_false]
+
+/-- From a start with `idx ≥ 1` the floor loop returns the greatest `r` with `a*r+b ≥ 1`. -/
+theorem floorLoop_spec (ha : a < 0) :
+    ∀ (fuel : Nat) (count idx lowest : Int), idx = a * count + b → 1 ≤ idx →
+      idx + 1 ≤ (fuel : Int) →
+      count ≤ floorLoop a b fuel count idx lowest ∧
+      1 ≤ a * floorLoop a b fuel count idx lowest + b ∧
+      a * (floorLoop a b fuel count idx lowest + 1) + b < 1 := by
+  intro fuel
+  induction fuel with
+  | zero => intro _ _ _ _ _ h; omega
+  | succ f ih =>
+    intro count idx lowest hidx h1 hf
+    have hs := mul_succ' a count
+    have e : floorLoop a b (f + 1) count idx lowest =
+        floorLoop a b f (count + 1) (a * (count + 1) + b) count := by
+      have : idx ≥ 1 := h1
+      simp only [floorLoop, this, if_true]
+    rw [e]
+    by_cases hnext : a * (count + 1) + b < 1
+    · rw [floorLoop_stop a b f (count + 1) _ count hnext]
+      exact ⟨Int.le_refl _, by omega, hnext⟩
+    · obtain ⟨i1, i2, i3⟩ := ih (count + 1) (a * (count + 1) + b) count rfl (by omega) (by omega)
+      exact ⟨by omega, i2, i3⟩
+
+end Floor
+
+/-! ### Assembly: `matchOne` on a well-formed walk -/
+
+section Assembly
+variable {α : Type} (counted isEl : α → Bool) (a b : Int)
+variable (pre : List α) (e : α) (post : List α)
+
+/-- The initial state of the walk satisfies the invariant. -/
+theorem inv_init (hpre : ∀ x ∈ pre, isEl x = false) (he : isEl e = true)
+    (hc : counted e = true) :
+    Inv counted isEl (((pre.filter counted).length + 1 : Nat) : Int) (pre ++ e :: post) 0 :=
+  ⟨pre, e, post, rfl, hpre, he, hc, by push_cast; omega⟩
+
+theorem pos_le_len :
+    (((pre.filter counted).length + 1 : Nat) : Int)
+      ≤ (Int.ofNat (pre ++ e :: post).length - 1) + 1 := by
+  have h1 : (pre.filter counted).length ≤ pre.length := List.length_filter_le _ _
+  have h2 : (pre ++ e :: post).length = pre.length + (post.length + 1) := by
+    simp [List.length_append]
+  rw [h2]
+  show ((((pre.filter counted).length + 1 : Nat)) : Int)
+      ≤ (((pre.length + (post.length + 1) : Nat) : Int) - 1) + 1
+  omega
+
+theorem matchOne_var (hpre : ∀ x ∈ pre, isEl x = false) (he : isEl e = true)
+    (hc : counted e = true) :
+    matchOne counted isEl a b true (pre ++ e :: post) = true ↔
+      ∃ n : Nat, a * (n : Int) + b = (((pre.filter counted).length + 1 : Nat) : Int) := by
+  have hinv := inv_init counted isEl pre e post hpre he hc
+  have hpL := pos_le_len counted pre e post
+  generalize hpos : (((pre.filter counted).length + 1 : Nat) : Int) = pos at hinv hpL ⊢
+  have hpos1 : 1 ≤ pos := by rw [← hpos]; push_cast; omega
+  generalize hwalk : pre ++ e :: post = walk at hinv hpL ⊢
+  have h0 : idxOf a b true 0 = b := by simp [idxOf]
+  have hof : Int.ofNat walk.length = ((walk.length : Nat) : Int) := rfl
+  have hL : (0 : Int) ≤ (Int.ofNat walk.length - 1) + 1 := by
+    show (0 : Int) ≤ ((walk.length : Nat) : Int) - 1 + 1
+    omega
+  have hadj := adjust_spec a b (Int.ofNat walk.length - 1) hL (b.natAbs + walk.length + 4)
+    (by omega) (by omega)
+  unfold matchOne
+  simp only [h0, if_true]
+  generalize adjust a b (Int.ofNat walk.length - 1) (b.natAbs + walk.length + 4) 0 b none = R
+    at hadj ⊢
+  obtain ⟨c, i⟩ := R
+  obtain ⟨hi, hc0, hP, hpa, hna⟩ := hadj
+  simp only at hi hc0 hP hpa hna ⊢
+  by_cases hneg : a < 0
+  · rw [if_pos hneg]
+    have hiL := hna hneg
+    by_cases hi1 : 1 ≤ i
+    · obtain ⟨f1, f2, f3⟩ := floorLoop_spec a b hneg (i.natAbs + 2) c i c hi hi1 (by omega)
+      generalize floorLoop a b (i.natAbs + 2) c i c = lowest at f1 f2 f3 ⊢
+      rw [outer_neg counted isEl a b _ pos hneg hpL _ lowest _ walk 0 (by omega) rfl
+        (Int.le_refl 0) (by omega) hinv (by omega)]
+      constructor
+      · rintro ⟨n, _, h⟩; exact ⟨n, h⟩
+      · rintro ⟨n, h⟩
+        refine ⟨n, ?_, h⟩
+        by_contra hcon
+        have := mono_neg hneg (show lowest + 1 ≤ (n : Int) by omega)
+        omega
+    · rw [floorLoop_stop a b _ c i c (by omega)]
+      rw [outer_out counted isEl a b true _ (-1) _ c (a * c + b) walk 0 (by omega)]
+      constructor
+      · intro h; cases h
+      · rintro ⟨n, h⟩
+        have h1 := hP n (by omega) (by omega)
+        have := mono_neg hneg h1
+        omega
+  · rw [if_neg hneg]
+    by_cases hzero : a = 0
+    · subst hzero
+      have hconst : ∀ c', idxOf 0 b true c' = 0 * c + b := by
+        intro c'; simp [idxOf]
+      by_cases hin : 1 ≤ 0 * c + b
+      · rw [outer_const counted isEl 0 b _ pos true (0 * c + b) hconst hpL _ c walk 0 hc0
+          (Int.le_refl 0) (by omega) hinv]
+        constructor
+        · intro h; exact ⟨0, by omega⟩
+        · rintro ⟨n, h⟩; omega
+      · rw [outer_out counted isEl 0 b true _ 1 _ c (0 * c + b) walk 0 (by omega)]
+        constructor
+        · intro h; cases h
+        · rintro ⟨n, h⟩; omega
+    · have hapos : 0 < a := by omega
+      have hi1 := hpa hapos
+      rw [outer_pos counted isEl a b _ pos hapos hpL _ c _ walk 0 hc0 rfl (Int.le_refl 0)
+        (by omega) hinv (by omega) (by omega)]
+      constructor
+      · rintro ⟨n, _, h⟩; exact ⟨n, h⟩
+      · rintro ⟨n, h⟩
+        exact ⟨n, hP n (by omega) (by omega), h⟩
+
+theorem matchOne_nonvar (hpre : ∀ x ∈ pre, isEl x = false) (he : isEl e = true)
+    (hc : counted e = true) :
+    matchOne counted isEl a b false (pre ++ e :: post) = true ↔
+      a = (((pre.filter counted).length + 1 : Nat) : Int) := by
+  have hinv := inv_init counted isEl pre e post hpre he hc
+  have hpL := pos_le_len counted pre e post
+  generalize hpos : (((pre.filter counted).length + 1 : Nat) : Int) = pos at hinv hpL ⊢
+  have hpos1 : 1 ≤ pos := by rw [← hpos]; push_cast; omega
+  generalize hwalk : pre ++ e :: post = walk at hinv hpL ⊢
+  have hconst : ∀ c', idxOf a b false c' = a := by intro c'; simp [idxOf]
+  unfold matchOne
+  simp only [hconst, Bool.false_eq_true, if_false]
+  by_cases hin : 1 ≤ a
+  · exact outer_const counted isEl a b _ pos false a hconst hpL _ 0 walk 0 (Int.le_refl 0)
+      (Int.le_refl 0) (by omega) hinv
+  · rw [outer_out counted isEl a b false _ 1 _ 0 a walk 0 (by omega)]
+    constructor
+    · intro h; cases h
+    · intro h; omega
+
+end Assembly
+
+/-! ### Spec-side facts: `posOf`, and walks that differ only in uncounted nodes -/
+
+section SpecSide
+variable {α : Type} (counted isEl : α → Bool)
+
+theorem posOf_split (pre : List α) (e : α) (post : List α)
+    (hpre : ∀ x ∈ pre, isEl x = false) (he : isEl e = true) (hc : counted e = true) :
+    NthSpec.posOf counted isEl (pre ++ e :: post) = some ((pre.filter counted).length + 1) := by
+  unfold NthSpec.posOf
+  have hnone : ∀ x ∈ pre.filter counted, ¬ (isEl x = true) := by
+    intro x hx
+    have := hpre x (List.mem_filter.mp hx).1
+    simp [this]
+  rw [List.filter_append, List.filter_cons_of_pos hc, List.findIdx?_append]
+  have h1 : List.findIdx? isEl (List.filter counted pre) = none :=
+    List.findIdx?_eq_none_iff.mpr (by
+      intro x hx
+      have := hnone x hx
+      simpa using this)
+  rw [h1, List.findIdx?_cons, he]
+  simp
+
+/-- The filter that forgets exactly the nodes that are neither counted nor `el`. -/
+def keep (x : α) : Bool := counted x || isEl x
+
+theorem split_of_filter_eq (walk' pre : List α) (e : α) (post : List α)
+    (hpre : ∀ x ∈ pre, isEl x = false) (he : isEl e = true)
+    (h : walk'.filter (keep counted isEl) = (pre ++ e :: post).filter (keep counted isEl)) :
+    ∃ pre' post', walk' = pre' ++ e :: post' ∧ (∀ x ∈ pre', isEl x = false) ∧
+      (pre'.filter counted).length = (pre.filter counted).length := by
+  have hke : keep counted isEl e = true := by simp [keep, he]
+  rw [List.filter_append, List.filter_cons_of_pos hke] at h
+  obtain ⟨l1, l2, rfl, h1, h2⟩ := List.filter_eq_append_iff.mp h
+  obtain ⟨m, l2', rfl, hm, _, _⟩ := List.filter_eq_cons_iff.mp h2
+  have hcf : ∀ l : List α, (l.filter (keep counted isEl)).filter counted = l.filter counted := by
+    intro l
+    rw [List.filter_filter]
+    congr 1
+    funext x
+    simp only [keep]
+    cases counted x <;> simp
+  refine ⟨l1 ++ m, l2', by simp, ?_, ?_⟩
+  · intro x hx
+    rcases List.mem_append.mp hx with hx1 | hxm
+    · cases hxe : isEl x with
+      | false => rfl
+      | true =>
+        exfalso
+        have hk : keep counted isEl x = true := by simp [keep, hxe]
+        have hmem : x ∈ l1.filter (keep counted isEl) := List.mem_filter.mpr ⟨hx1, hk⟩
+        rw [h1] at hmem
+        have := hpre x (List.mem_filter.mp hmem).1
+        rw [hxe] at this
+        cases this
+    · have := hm x hxm
+      simp only [keep, Bool.or_eq_true, not_or] at this
+      simpa using this.2
+  · have hmc : m.filter counted = [] := by
+      apply List.filter_eq_nil_iff.mpr
+      intro x hx
+      have := hm x hx
+      simp only [keep, Bool.or_eq_true, not_or] at this
+      exact this.1
+    rw [List.filter_append, hmc, List.append_nil, ← hcf l1, h1, hcf pre]
+
+end SpecSide
+
 end NthLemmas
 end SoupVerif
